@@ -61,21 +61,22 @@ type c19block struct {
 }
 
 type c19db struct {
-	env     *c19env
-	st      *leveldbstorage.Storage
-	permst  *leveldbstorage.Storage
-	perm    isaac.PermanentDatabase
-	redis   *redis.Options // when set, the permanent database is the Redis-backed one (C26)
-	prefix  string
-	mirror  *c19db // a second database that receives the very same objects (C26)
-	center  *isaacdatabase.Center
-	mapIDs  map[string]string // manifest hash -> id
-	proofID map[string]string // suffrage state hash -> id
-	valueID map[string]string // state hash -> value id
-	polID   map[string]string
-	ops     map[string]util.Hash
-	counter int
-	stcache int // size of the permanent database's state cache (0: none)
+	env         *c19env
+	st          *leveldbstorage.Storage
+	permst      *leveldbstorage.Storage
+	perm        isaac.PermanentDatabase
+	redis       *redis.Options // when set, the permanent database is the Redis-backed one (C26)
+	prefix      string
+	mirror      *c19db // a second database that receives the very same objects (C26)
+	writerOrder bool   // blocks of even height are stored in the order of isaacblock.Writer.Save
+	center      *isaacdatabase.Center
+	mapIDs      map[string]string // manifest hash -> id
+	proofID     map[string]string // suffrage state hash -> id
+	valueID     map[string]string // state hash -> value id
+	polID       map[string]string
+	ops         map[string]util.Hash
+	counter     int
+	stcache     int // size of the permanent database's state cache (0: none)
 }
 
 func (d *c19db) open() error {
@@ -194,8 +195,14 @@ func (d *c19db) write(b *c19block) error {
 				sw.SetStateCache(util.NewLRUGCache[string, [2]interface{}](1))
 			}
 		}
-		if err := w.SetBlockMap(m); err != nil {
-			return err
+		// two orders occur in the repository: the importer sets the block map first and calls Write last; the block
+		// writer (isaacblock.Writer.Save) writes states and operations, calls Write, and only then sets the block map
+		// and the suffrage proof
+		writerOrder := x.writerOrder && b.Height%2 == 0
+		if !writerOrder {
+			if err := w.SetBlockMap(m); err != nil {
+				return err
+			}
 		}
 		if err := w.SetStates(sts); err != nil {
 			return err
@@ -203,13 +210,23 @@ func (d *c19db) write(b *c19block) error {
 		if err := w.SetOperations(known); err != nil {
 			return err
 		}
+		if writerOrder {
+			if err := w.Write(); err != nil {
+				return err
+			}
+			if err := w.SetBlockMap(m); err != nil {
+				return err
+			}
+		}
 		if sufst != nil {
 			if err := w.SetSuffrageProof(isaacblock.NewSuffrageProof(m, sufst, fixedtree.Proof{})); err != nil {
 				return err
 			}
 		}
-		if err := w.Write(); err != nil {
-			return err
+		if !writerOrder {
+			if err := w.Write(); err != nil {
+				return err
+			}
 		}
 		return x.center.MergeBlockWriteDatabase(w)
 	}
